@@ -373,6 +373,24 @@ fn main() {
     let args: Vec<String> = std::env::args().collect();
     match args.get(1).map(|s| s.as_str()) {
         Some(sinks::TERM_CHILD_ARG) => sinks::term_child_main(),
+        Some("fuzz-smoke") => {
+            // drive the libFuzzer entry with pseudo-random buffers (self-test of the E6 target, no libFuzzer needed)
+            let n: u64 = args.get(2).and_then(|s| s.parse().ok()).unwrap_or(2000);
+            let mut x: u64 = args.get(3).and_then(|s| s.parse().ok()).unwrap_or(1);
+            for _ in 0..n {
+                let mut buf = Vec::new();
+                for _ in 0..(16 + (x >> 59) as usize * 24) {
+                    x ^= x << 13;
+                    x ^= x >> 7;
+                    x ^= x << 17;
+                    buf.extend_from_slice(&x.to_le_bytes());
+                }
+                c13::fuzz::fuzz_entry_value_to_sinks(&buf);
+            }
+            sinks::shutdown();
+            println!("fuzz-smoke: {n} inputs, no unlisted violation");
+            return;
+        }
         Some("show") => {
             show(args.get(2).map(|s| s.as_str()).unwrap_or(""));
             return;
